@@ -457,7 +457,28 @@ func (e *Engine) safety(fr *Frame, st *State, what, cond string, pos token.Pos) 
 		return
 	}
 	if e.cfg.Safety {
-		e.addObligation(st, fr, "safety:"+what, []string{"safety"}, what, e.posStr(pos), cond, nil)
+		goal := cond
+		// known findings on panic-freedom: carved out by a region over the function's parameters
+		if fr.depth == 0 && fr.fn == e.curFn {
+			for _, kf := range e.known {
+				if kf.Obligation != "safety" || !strings.HasSuffix(fr.fn.String(), kf.Function) {
+					continue
+				}
+				rx, err := parseExpr(kf.Region)
+				if err != nil {
+					e.errorf("known finding safety: %v", err)
+					continue
+				}
+				rv, err := e.loopCtx(fr, st, nil, false).evalAs(rx, sBool)
+				if err != nil {
+					e.errorf("known finding safety region: %v", err)
+					continue
+				}
+				e.addObligation(st, fr, "known-inside", []string{"safety"}, what, kf.Region, "(=> "+rv.T+" "+cond+")", nil)
+				goal = or(rv.T, goal)
+			}
+		}
+		e.addObligation(st, fr, "safety:"+what, []string{"safety"}, what, e.posStr(pos), goal, nil)
 	}
 	st.assume(cond)
 }
